@@ -325,6 +325,10 @@ def long_inputs(check, tier):
     s.done()
 
 def run(check, tier, seed):
+    from pyvc.verify import verify
+    import contracts.valuemodel as VM
+    for c in VM.ALL:            # this property's contracts are stated over the executor's value model of Chunk / FmtStr: the real constructors and
+        verify(c, tier, check, prefix="C15")      # accessors must behave as that model says (same obligations as in C13, decided here too)
     long_inputs(check, tier)
     deductive(check, tier)
     bounded(check, tier, seed)
